@@ -269,10 +269,13 @@ type dasSys struct {
 	stopDone chan error
 	crashed  bool
 
-	lastCount map[uint64]int
-	seenJobs  map[int]bool // job ids already judged by the back-off oracle (this instance)
-	err       error        // first violation observed (sticky)
-	hist      []string
+	lastCount      map[uint64]int
+	seenJobs       map[int]bool // job ids already judged by the back-off oracle (this instance)
+	reportedFailAt map[uint64]time.Time
+	failCountSeen  map[uint64]int
+	failSeenInit   bool
+	err            error // first violation observed (sticky)
+	hist           []string
 }
 
 func newDasSys(t *testing.T, cfg dasCfg) *dasSys {
@@ -292,6 +295,9 @@ func (s *dasSys) fail(format string, a ...any) {
 
 func (s *dasSys) start() {
 	s.seenJobs = map[int]bool{}
+	s.reportedFailAt = map[uint64]time.Time{}
+	s.failCountSeen = map[uint64]int{}
+	s.failSeenInit = false
 	s.w.ds.frozen = false
 	s.w.lastFail = map[uint64]time.Time{}
 	s.w.bgPrev = 0
@@ -725,6 +731,20 @@ func (s *dasSys) observe() {
 	s.lastCount = cur
 	// a retry job runs only after the back-off of its height has elapsed (unless the height
 	// was resumed from a checkpoint, which deliberately retries at once)
+	// when did the COORDINATOR learn about a failure of h (a result carrying it was handled)?
+	// A failure inside a worker that has not reported yet does not start any back-off.
+	for h, a := range cs.failed {
+		if prev, ok := s.failCountSeen[h]; !ok || a.count > prev {
+			if ok || s.failSeenInit {
+				s.reportedFailAt[h] = time.Now()
+			}
+		}
+	}
+	s.failCountSeen = map[uint64]int{}
+	for h, a := range cs.failed {
+		s.failCountSeen[h] = a.count
+	}
+	s.failSeenInit = true
 	for id, get := range cs.inProgress {
 		if s.seenJobs[id] {
 			continue
@@ -736,14 +756,14 @@ func (s *dasSys) observe() {
 		}
 		h := ws.from
 		a := cs.inRetry[h]
-		t, ok := w.lastFail[h]
+		t, ok := s.reportedFailAt[h]
 		if !ok || a.count < 1 {
-			continue
+			continue // resumed from a checkpoint: retried at once by design
 		}
 		iv := cs.retryStrategy.retryIntervals
 		need := iv[min(a.count, len(iv))-1]
 		if time.Since(t) < need {
-			s.fail("C13/retry-before-backoff: retry job for height %d (attempt %d) started %v after its last failure, back-off is %v", h, a.count, time.Since(t), need)
+			s.fail("C13/retry-before-backoff: retry job for height %d (attempt %d) started %v after the coordinator recorded its failure, back-off is %v", h, a.count, time.Since(t), need)
 			return
 		}
 	}
